@@ -63,7 +63,7 @@ def main():
         sigs = [x for x in sigs if not x.startswith("X03-F1:")]
         verdict = "KILLED" if sigs else ("MACHINERY rc=%d" % r.returncode if r.returncode == 2 else "SURVIVED")
         print("%-28s %-9s %s" % (name, verdict, "; ".join(sigs[:4])), flush=True)
-    sh("git", "-C", WT, "checkout", "--", ".")
+    sh("git", "-C", "/repo", "worktree", "remove", "--force", WT)   # never leave scratch around
 
 
 if __name__ == "__main__":
